@@ -84,11 +84,26 @@ def chooseNormal (computed : Option (V3 α)) (normal : Option (V3 α)) : Except 
       else .error "ValueError:normal"
     | _, _ => .error "ValueError:normal"     -- nan never passes np.isclose
 
-/-- the coplanarity loop: `d = n·v0; for v: if not np.isclose(n·v, d, planar_tolerance): raise`
-    (third positional argument of `np.isclose` is `rtol`; `atol` keeps its default) -/
+/-- the coplanarity loop of /repo BEFORE 744f807 (regression witness only; `Lemmas/CovarianceTol.lean` of C09 states the
+exact range in which it is covariant): `d = n·v0; for v: if not np.isclose(n·v, d, planar_tolerance): raise`
+(third positional argument of `np.isclose` is `rtol`; `atol` keeps its default) — it compared the distance from the
+plane with `1e-8 + ptol·|distance of the plane from the ORIGIN|`. -/
 def coplanar (n : V3 α) (verts : List (V3 α)) (ptol : α) : Bool :=
   let d := V3.dot n (verts.getD 0 V3.zero)
   verts.all fun v => isclose (V3.dot n v) d ptol atolDefault
+
+/-- `extent = np.max(np.linalg.norm(self.vertices - self.vertices[0], axis=1))` (norms are ≥ 0, the first one is 0) -/
+def planarExtent (verts : List (V3 α)) : α :=
+  let v0 := verts.getD 0 V3.zero
+  (verts.map fun v => V3.norm (v - v0)).foldl Scalar.max (lit 0)
+
+/-- the coplanarity test of /repo (744f807): `relative_vertices = vertices - vertices[0]`,
+`distances = |relative_vertices · n|`, `np.all(distances <= planar_tolerance * extent)` — distances from the plane
+through the first vertex against the SIZE of the polygon. -/
+def coplanarRel (n : V3 α) (verts : List (V3 α)) (ptol : α) : Bool :=
+  let v0 := verts.getD 0 V3.zero
+  let extent := planarExtent verts
+  verts.all fun v => decide (Scalar.abs (V3.dot (v - v0) n) ≤ ptol * extent)
 
 /-- `np.mean(vertices, axis=0)` of 2-D points -/
 def mean2 (l : List (P2 α)) : P2 α :=
@@ -129,9 +144,9 @@ def Polygon.new (ndim ncols : Nat) (rows : List (V3 α)) (normal : Option (V3 α
     let verts := rows.map (pad ncols)
     match chooseNormal (cornerNormal verts) normal with
     | .error e => .error e
-    | .ok none => .error "ValueError:coplanar"   -- nan normal: `np.isclose(nan, nan)` is False at vertex 0
+    | .ok none => .error "ValueError:coplanar"   -- nan normal: `nan <= tol` is False (`np.all(distances <= ...)`)
     | .ok (some n) =>
-      if !coplanar n verts ptol then .error "ValueError:coplanar"
+      if !coplanarRel n verts ptol then .error "ValueError:coplanar"
       else if testSimple && !isSimple (align n verts) then .error "ValueError:simple"
       else .ok ⟨verts, n, .fresh, .fresh⟩
 
@@ -150,7 +165,7 @@ def Polygon.newSweep (ndim ncols : Nat) (rows : List (V3 α)) (normal : Option (
     | .error e => .error e
     | .ok none => .error "ValueError:coplanar"
     | .ok (some n) =>
-      if !coplanar n verts ptol then .error "ValueError:coplanar"
+      if !coplanarRel n verts ptol then .error "ValueError:coplanar"
       else if testSimple && !isSimpleSweep asserts (align n verts) then .error "ValueError:simple"
       else .ok ⟨verts, n, .fresh, .fresh⟩
 
